@@ -255,9 +255,12 @@ impl KrpcSocket {
 
     fn is_expected_response(&mut self, message: &Message, from: &SocketAddrV4) -> bool {
         // Positive or an error response or to an inflight request.
-        match self.inflight_requests.remove(message.transaction_id) {
+        // Only consume the inflight request if it didn't time out, and the response
+        // comes from the address we sent it to, otherwise a spoofed response could cancel it.
+        match self.inflight_requests.get(message.transaction_id) {
             Some(request) => {
                 if compare_socket_addr(&request.to, from) {
+                    self.inflight_requests.remove(message.transaction_id);
                     return true;
                 } else {
                     trace!(
